@@ -1215,7 +1215,9 @@ def descends(repo, fi: FuncInfo, call: ast.Call, params: list[str]) -> str | Non
             grounded = its or any(chain(v)[0] != name for v in vals)
             derived[name] = "tentative"
             ok_vals = [sub_term(v) for v in vals]
-            ok_its = [(chain(i)[0] in params or (chain(i)[0] in derived and chain(i)[0] != name)) for i in its]
+            # a loop over a display of components (`for b in [e.if_expr, e.else_expr]`) binds components too
+            ok_its = [(chain(i)[0] in params or (chain(i)[0] in derived and chain(i)[0] != name)
+                       or (isinstance(i, (ast.List, ast.Tuple)) and bool(i.elts) and all(sub_term(x) for x in i.elts))) for i in its]
             del derived[name]
             if grounded and all(ok_vals) and all(ok_its):
                 derived[name] = f"an element of `{ast.unparse(its[0])[:40]}`" if its else f"a component (`{ast.unparse(vals[0])[:40]}`)"
